@@ -110,7 +110,7 @@ DECL_jwt_sign(contract_C09_jwt_sign, C09, C09_SIGN_CLAUSES);
 DECL_jwt_sign(contract_C02_jwt_sign, C02, C02_SIGN_CLAUSES);
 DECL_jwt_sign(contract_nogate_jwt_sign, nogate, );
 DECL_jwt_sign(contract_C01_jwt_sign, nogate, );
-DECL_jwt_sign(contract_all_jwt_sign, all, C09_SIGN_CLAUSES C02_SIGN_CLAUSES);
+DECL_jwt_sign(contract_all_jwt_sign, all, GATE_ITEM_WF C09_SIGN_CLAUSES C02_SIGN_CLAUSES);
 
 /* ===================== C02: header alg parsing is exact ================= */
 #define STR_ALG_CLAUSE(A) __CPROVER_ensures((alg != NULL && SPEC_NAME_IS(alg, A)) ==> __CPROVER_return_value == (A))
@@ -224,7 +224,7 @@ __CPROVER_requires(SPEC_IS_HS(jwt->alg)) \
 __CPROVER_ensures(__CPROVER_return_value == 0 ==> (SPEC_IS_HS(jwt->alg) && C01_MAC_EXACTLY(jwt, head, head_len)))
 DECL__verify_sha_hmac(contract_C01__verify_sha_hmac, nogate, C01_VSH_CLAUSES);
 DECL__verify_sha_hmac(contract_C09__verify_sha_hmac, C09, C09_VSH_CLAUSES);
-DECL__verify_sha_hmac(contract_all__verify_sha_hmac, all, C01_VSH_CLAUSES C09_VSH_CLAUSES C02_VSH_CLAUSES);
+DECL__verify_sha_hmac(contract_all__verify_sha_hmac, all, GATE_ITEM_WF C01_VSH_CLAUSES C09_VSH_CLAUSES C02_VSH_CLAUSES);
 DECL__verify_sha_hmac(contract_C02__verify_sha_hmac, C02, C02_VSH_CLAUSES);
 
 #define DECL_jwt_verify_sig(NAME, P, CLAUSES) \
@@ -256,7 +256,7 @@ __CPROVER_ensures((__CPROVER_old(jwt->error) == 0 && jwt->error == 0) ==> ( \
 	  g_ver_family == (int)SPEC_KTY_FOR(jwt->alg)))))
 DECL_jwt_verify_sig(contract_C01_jwt_verify_sig, nogate, C01_VS_CLAUSES);
 DECL_jwt_verify_sig(contract_C09_jwt_verify_sig, C09, C09_VS_CLAUSES);
-DECL_jwt_verify_sig(contract_all_jwt_verify_sig, all, C01_VS_CLAUSES C09_VS_CLAUSES C02_VS_CLAUSES);
+DECL_jwt_verify_sig(contract_all_jwt_verify_sig, all, GATE_ITEM_WF C01_VS_CLAUSES C09_VS_CLAUSES C02_VS_CLAUSES);
 DECL_jwt_verify_sig(contract_C02_jwt_verify_sig, C02, C02_VS_CLAUSES);
 
 #endif
